@@ -162,7 +162,8 @@ pub enum BodySpec {
     None,
     Text(String),
     Bytes(Payload),
-    File(Payload),
+    /// file contents and the position (fraction of the length) of the handle's cursor when the body is attached
+    File(Payload, u16),
     Json(JsonSpec),
     JsonStreaming(JsonSpec),
     Form(Vec<(String, String)>),
@@ -176,7 +177,7 @@ impl BodySpec {
             BodySpec::None => "none",
             BodySpec::Text(_) => "text",
             BodySpec::Bytes(_) => "bytes",
-            BodySpec::File(_) => "file",
+            BodySpec::File(..) => "file",
             BodySpec::Json(_) => "json",
             BodySpec::JsonStreaming(_) => "json_streaming",
             BodySpec::Form(_) => "form",
@@ -214,7 +215,7 @@ pub fn body_spec() -> BoxedStrategy<BodySpec> {
         2 => urlgen::arb_text(40).prop_map(BodySpec::Text),
         2 => crate::gen::small_payload(3000).prop_map(BodySpec::Bytes),
         1 => crate::gen::payload(70_000).prop_map(BodySpec::Bytes),
-        2 => crate::gen::small_payload(20_000).prop_map(BodySpec::File),
+        2 => (crate::gen::small_payload(20_000), prop_oneof![2 => Just(0u16), 1 => any::<u16>(), 1 => Just(65535u16)]).prop_map(|(p, c)| BodySpec::File(p, c)),
         2 => json_spec().prop_map(BodySpec::Json),
         2 => json_spec().prop_map(BodySpec::JsonStreaming),
         2 => urlgen::pairs(5).prop_map(BodySpec::Form),
@@ -393,9 +394,15 @@ pub fn send_with_body(rb: attohttpc::RequestBuilder, body: &BodySpec) -> Sent {
             let d = p.bytes();
             Sent { result: rb.bytes(d.clone()).send(), expect: ExpectBody::Exact(d), known_length: Some(true), default_content_type: Some("application/octet-stream") }
         }
-        BodySpec::File(p) => {
+        BodySpec::File(p, cursor) => {
             let d = p.bytes();
-            let f = temp_file_with(&d);
+            let mut f = temp_file_with(&d);
+            // the handle need not be at the start: the body is the whole file wherever the cursor stands
+            {
+                use std::io::Seek;
+                let pos = ((*cursor as u64) * (d.len() as u64 + 1)) >> 16;
+                f.seek(std::io::SeekFrom::Start(pos)).expect("seek");
+            }
             Sent { result: rb.file(f).send(), expect: ExpectBody::Exact(d), known_length: Some(true), default_content_type: Some("application/octet-stream") }
         }
         BodySpec::Json(j) => {
@@ -665,7 +672,7 @@ non-trivial = a body or >= 1 param or a custom program with >= 2 writes";
             BodySpec::None => "body:none",
             BodySpec::Text(_) => "body:text",
             BodySpec::Bytes(_) => "body:bytes",
-            BodySpec::File(_) => "body:file",
+            BodySpec::File(..) => "body:file",
             BodySpec::Json(_) => "body:json",
             BodySpec::JsonStreaming(_) => "body:json_streaming",
             BodySpec::Form(_) => "body:form",
